@@ -23,8 +23,8 @@ func init() {
 		HangIsViol:  true,
 		CaseTimeout: 240 * time.Second,
 		Assumptions: []string{"'documented error' is judged by exit code and absence of the internal-failure markers, not by message text", "permission states use --wait-timeout 0.1: a lock file that cannot be created is retried until the timeout (documented exit code 8)"},
-		Setup: func(w *core.Worker) { core.HermeticProcess(w.Work); c18LoadSeeds() },
-		Fn:    c19Case,
+		Setup:       func(w *core.Worker) { core.HermeticProcess(w.Work); c18LoadSeeds() },
+		Fn:          c19Case,
 	})
 }
 
@@ -420,7 +420,10 @@ func c19FS(w *core.Worker, i int) {
 			_ = os.Chmod(d, 0777)
 		}
 	}
-	scenario("missing-file", func(d string) ([]string, []string, []string, string) { _ = os.Remove(filepath.Join(d, "t.csv")); return nil, nil, nil, "" })
+	scenario("missing-file", func(d string) ([]string, []string, []string, string) {
+		_ = os.Remove(filepath.Join(d, "t.csv"))
+		return nil, nil, nil, ""
+	})
 	scenario("directory-in-place-of-file", func(d string) ([]string, []string, []string, string) {
 		_ = os.Remove(filepath.Join(d, "t.csv"))
 		_ = os.Mkdir(filepath.Join(d, "t.csv"), 0777)
